@@ -45,6 +45,14 @@ class Check:
         self.instances.append({"rule": rule, "key": key, "ok": False, "detail": detail, "loc": loc, "trivial": False})
         self.violations.append({"rule": rule, "key": key, "detail": detail, "loc": loc, "data": data})
 
+    def skip(self, rule, key, detail, loc=None):
+        """A supplementary rule whose anchor has a shape it does not recognise: recorded as not evaluated (no verdict).
+        Only used where another rule of the same property (translation validation / compile-fail witnesses) decides the
+        clause on its own; primary rules fail closed instead."""
+        key = self.prefix + key
+        self.instances.append({"rule": rule, "key": key, "ok": True, "detail": "NOT EVALUATED: " + detail, "loc": loc, "trivial": True})
+        self.extra.setdefault("not_evaluated", []).append({"rule": rule, "site": key, "why": detail})
+
     def judge(self, cond, rule, key, detail_ok="", detail_bad="", loc=None, data=None):
         if cond:
             self.ok(rule, key, detail_ok, loc)
